@@ -2,7 +2,7 @@
 Require Import Norad.Model.GlifSpec Norad.Model.GlifDen Norad.Model.GlifEncode.
 Require Import Norad.Proofs.GlifParseP Norad.Proofs.GlifEncodeP Norad.Proofs.GlifRoundtripP Norad.Proofs.GlifFullP.
 Require Import Norad.Model.FontRT Norad.Model.FontRealInfo Norad.Model.FontReal Norad.Proofs.FontRTP
-               Norad.Proofs.FontRealInfoP.
+               Norad.Proofs.FontRealInfoP Norad.Proofs.PlistNfP.
 Open Scope N_scope.
 
 Section RealP.
@@ -152,9 +152,10 @@ Proof.
     + destruct d; [reflexivity|discriminate].
     + destruct d as [|[k v] d]; [reflexivity|]. intros Hk. specialize (Hk k). simpl in Hk.
       rewrite str_eqb_refl in Hk. discriminate.
-  - (* deq_get *) intros a b. unfold pd_eq. split; intros Hk k; [apply orel_eq_iff'|apply orel_eq_iff']; apply Hk.
+  - (* deq_get *) exact pd_eq_orel.
   - (* as_mk *) reflexivity.
-  - (* as_dict_veq *) intros v w ->. destruct w; simpl; try exact I. intros k. reflexivity.
+  - (* as_dict_veq *) intros v w Hvw. destruct v, w; simpl; try exact I; try (unfold pv_eqv in Hvw; simpl in Hvw; discriminate).
+    apply pv_eqv_dicts. exact Hvw.
   - (* wf_as *) intros v d Hv Hd. destruct v; try discriminate. inversion Hd; subst. apply k_wf_as. exact Hv.
   - (* irest_dflt_spec *) exact info_is_none_spec.
   - (* info_dflt_wf *)
@@ -274,11 +275,13 @@ Lemma glyph_rules_set_gname : forall n g, name_valid n = true -> glyph_rules g -
 Proof. intros n g Hn (R1 & R). split; [exact Hn|exact R]. Qed.
 
 (** the names under which glyphs are loaded are valid names *)
-Lemma loaded_glyph_names_valid : forall (t : tree RS) (f : font RS),
+Lemma loaded_glyph_names_valid0 :
+  (forall c l, dec (K_contents K) c = Some l -> Forall (fun e => name_valid (fst e) = true) l) ->
+  forall (t : tree RS) (f : font RS),
   load RS t = Ok f ->
   Forall (fun l => Forall (fun e : str * str * glyph => name_valid (fst (fst e)) = true) (l_glyphs l)) (f_layers RS f).
 Proof.
-  intros t f H.
+  intros Hcn t f H.
   destruct (load_elim RS t f H) as (mc & m & olib & il & og & ok & ls & _ & _ & _ & _ & _ & _ & _ & E8 & _ & F2 & _).
   rewrite F2. unfold load_layers in E8. binv E8.
   destruct (lc_precheck RS [] [] a); [discriminate|]. binv E8.
@@ -292,11 +295,64 @@ Proof.
   destruct (negb (nodupb (map (fun e0 : str * str => lower RS (snd e0)) cl))); [discriminate|].
   binv He. inversion He; subst l. simpl.
   assert (Hn : Forall (fun e0 : str * str => name_valid (fst e0) = true) cl).
-  { simpl in Ecl. destruct cc as [cb|?|?]; try discriminate. destruct CK. exact (kc_contents_names cb cl Ecl). }
+  { simpl in Ecl. destruct cc as [cb|?|?]; try discriminate. exact (Hcn cb cl Ecl). }
   apply mapM_Forall2 in E1. apply Forall_forall. intros x Hx. apply Forall2_flip in E1.
   destruct (Forall2_in_l _ _ _ _ E1 Hx) as [ce [Hce Hld]]. cbv beta in Hld. unfold load_glyph in Hld.
   destruct (alookup (snd ce) (ld_glifs RS d)); [|discriminate]. destruct (dec (P_glif RS) t0); [|discriminate].
   inversion Hld; subst x. simpl. rewrite Forall_forall in Hn. exact (Hn ce Hce).
+Qed.
+
+Lemma loaded_glyph_names_valid : forall (t : tree RS) (f : font RS),
+  load RS t = Ok f ->
+  Forall (fun l => Forall (fun e : str * str * glyph => name_valid (fst (fst e)) = true) (l_glyphs l)) (f_layers RS f).
+Proof. apply loaded_glyph_names_valid0. destruct CK. assumption. Qed.
+
+(** the loaded glyphs are in the domain of the glif codec when they are in [glyph_rt_domain] *)
+Lemma loaded_glyph_entries_real :
+  (forall c l, dec (K_contents K) c = Some l -> Forall (fun e => name_valid (fst e) = true) l) ->
+  forall (t : tree RS) (f : font RS), load RS t = Ok f ->
+  Forall (fun l => Forall (fun e : str * str * glyph => glyph_rt_domain pf ff3 (snd e)) (l_glyphs l)) (f_layers RS f) ->
+  Forall (fun l => Forall (glyph_entry_ok RS) (l_glyphs l)) (f_layers RS f).
+Proof.
+  intros Hcn t f H HD.
+  pose proof (loaded_glyphs_rules_real t f H) as HR. pose proof (loaded_glyph_names_valid0 Hcn t f H) as HN.
+  rewrite Forall_forall in *. intros l Hl. specialize (HR l Hl). specialize (HN l Hl). specialize (HD l Hl).
+  rewrite Forall_forall in *. intros e He.
+  destruct (HR e He) as (g & G1 & G2 & G3). destruct (HD e He) as (D1 & D2 & D3 & D4 & D5).
+  split; simpl.
+  - unfold wf_glyph. split; [rewrite G3; apply glyph_rules_set_gname; [exact (HN e He)|exact G1]|]. auto.
+  - rewrite G3. reflexivity.
+Qed.
+
+(** closedness at one tree, and the fixed point for a tree whose lib / kerning / layerinfo files are
+    read as values of their writers' domains *)
+Lemma real_closed_at : codecs_closed_base K ->
+  forall t : tree RS, files_in_domain pf ff ff3 fi fh K t -> sig_closed_at RS t.
+Proof.
+  intros CB t (D1 & D2 & D3). destruct CB. constructor; simpl; try (apply lift_closed; assumption).
+  - apply info_real_closed.
+  - intros c x Ht Hd. destruct c as [c|d|r]; try discriminate. exact (D1 c x Ht Hd).
+  - intros c x Ht Hd. destruct c as [c|d|r]; try discriminate. exact (D2 c x Ht Hd).
+  - intros dn d c x Hl Hi Hd. destruct c as [c|d0|r]; try discriminate. exact (D3 dn d c x Hl Hi Hd).
+  - intros c m Hd. destruct c as [c|d|r]; try discriminate. exact (kb_meta_norad c m Hd).
+  - intros c si Hd g Hg id Hid. destruct c as [c|d|r]; try discriminate.
+    destruct (FI.fi_load r) as [i| |] eqn:El; try discriminate. inversion Hd; subst si. clear Hd.
+    unfold of_info in Hg. simpl in Hg. destruct (FI.i_guides i) as [gs|] eqn:Eg; [|contradiction].
+    simpl in Hg. apply in_map_iff in Hg. destruct Hg as [x [Ex Hx]]. subst g. simpl in Hid.
+    pose proof (kb_info_ids r i El gs Eg) as F. rewrite Forall_forall in F. exact (F x Hx id Hid).
+  - intros i Hi. apply (info_ok_real_nodup _ i Hi).
+Qed.
+
+Theorem fixed_point_real_at : codecs_closed_base K ->
+  forall o (t : tree RS) (f : font RS) mc m,
+  load RS t = Ok f -> t_meta RS t = Some mc -> dec (P_meta RS) mc = Some m -> m_version m = 3 ->
+  files_in_domain pf ff ff3 fi fh K t ->
+  Forall (fun l => Forall (fun e : str * str * glyph => glyph_rt_domain pf ff3 (snd e)) (l_glyphs l)) (f_layers RS f) ->
+  exists t', save RS o f = Ok t' /\ exists f', load RS t' = Ok f' /\ font_equiv RS f f'.
+Proof.
+  intros CB o t f mc m H Hm1 Hm2 Hv HF HD.
+  apply (fixed_point_at RS (real_sig_ok HK) t (real_closed_at CB t HF) o f mc m H Hm1 Hm2 Hv).
+  apply (loaded_glyph_entries_real (kb_contents_names K CB) t f H HD).
 Qed.
 
 (** the fixed point for every format-3 tree the real reader loads, assuming of the loaded glyphs only
@@ -369,10 +425,6 @@ Proof.
   - intros o x _. exists (inj x), x. auto.
   - intros o1 o2 x c1 c2 _ H1 H2. congruence.
 Qed.
-Lemma pd_eq_refl : forall d, pd_eq d d. Proof. intros d k. reflexivity. Qed.
-Lemma pd_eq_sym : forall a b, pd_eq a b -> pd_eq b a. Proof. intros a b H k. symmetry. apply H. Qed.
-Lemma pd_eq_trans : forall a b c, pd_eq a b -> pd_eq b c -> pd_eq a c.
-Proof. intros a b c H1 H2 k. rewrite H1. apply H2. Qed.
 
 Lemma id_contents_ok : part_ok (K_contents id_codecs).
 Proof.
